@@ -900,17 +900,25 @@ def projection(o):
 
 # ================================================================ running
 
-def write_gen_rs(cases):
+def write_gen_rs(cases, harness="msgs"):
     src = render_gen_rs(cases)           # also fills in the line of every matching!
-    path = os.path.join(C.VERIF, "harness", "msgs", "src", "gen.rs")
+    if harness != "msgs":
+        # a private copy of the crate for a part of another property
+        a, b = os.path.join(C.VERIF, "harness", "msgs"), os.path.join(C.VERIF, "harness", harness)
+        os.makedirs(os.path.join(b, "src"), exist_ok=True)
+        for rel in ("Cargo.toml.in", os.path.join("src", "main.rs")):
+            text = open(os.path.join(a, rel)).read().replace('name = "vmsgs"', f'name = "v{harness}"')
+            if not os.path.exists(os.path.join(b, rel)) or open(os.path.join(b, rel)).read() != text:
+                open(os.path.join(b, rel), "w").write(text)
+    path = os.path.join(C.VERIF, "harness", harness, "src", "gen.rs")
     if not os.path.exists(path) or open(path).read() != src:
         open(path, "w").write(src)
     return src
 
 
-def both(cases):
-    write_gen_rs(cases)
-    binary = C.build_harness("msgs")
+def both(cases, harness="msgs"):
+    write_gen_rs(cases, harness)
+    binary = C.build_harness(harness)
     impl = C.run_harness(binary, [f"case {k} {k}" for k in range(len(cases))])
     model = C.coq_eval_cases(PRELUDE, [coq_case(k, c) for k, c in enumerate(cases)], shard=12)
     return [impl_observation(o) for o in impl], [model_observation(m) for m in model]
@@ -1007,6 +1015,47 @@ def normalize(case):
 
 def show_obs(o):
     return {"class": o["class"], "errors": [{k: e.get(k) for k in ("path", "args", "pat", "mm", "text", "kind", "unparsed") if k in e} for e in o["errors"]]}
+
+
+class MessagePart:
+    """a correspondence part for other properties: programs of this generator (every error kind, every arity) whose string arguments
+    and string patterns include LONG non-ASCII texts, run in a private copy of the crate; a process abort (a second panic while the
+    message of the first is produced) is seen as a crashed case"""
+    def __init__(self, prop, n_quick=70, n_thorough=400):
+        self.prop, self.n = prop, {"quick": n_quick, "thorough": n_thorough}
+
+    def __call__(self, rng, tier, seed, cases_):
+        global DOM_STR
+        saved = DOM_STR
+        DOM_STR = ["", "a", "\u00e9" * 300, "x" + "\u00fc" * 280, "b" * 700]
+        try:
+            cases = []
+            for c in gen_cases(rng, "quick"):
+                if any(core(t)[1] in ("Str", "String") for t in c["sig"] if core(t)[0] == "B") and len(cases) < self.n[tier]:
+                    cases.append(c)
+        finally:
+            DOM_STR = saved
+        impl, model = both(cases, harness="msgs" + self.prop[1:])
+        bad = [i for i in range(len(cases)) if disagree(impl[i], model[i])]
+        cov = {"message_part": {"evaluations": len(cases), "rule": MessagePart.__doc__}}
+        if not bad:
+            return len(cases), None, cov
+        i = bad[0]
+        return len(cases), {"property": self.prop, "seed": seed, "part": "messages",
+                            "theorem_or_correspondence": f"correspondence {self.prop} (message part): panic text of the generated program vs Macro.Messages.run19 "
+                                                         "(a crashed case = the process aborted)",
+                            "case": cases[i], "rust_program": sample_src(0, cases[i]), "coq_case": coq_case(0, cases[i]),
+                            "expected_by_model": show_obs(model[i]), "observed_on_implementation": show_obs(impl[i]),
+                            "disagreeing_cases_in_run": len(bad), "replay_cmd": f"./check {self.prop} --replay <this file>"}, cov
+
+
+def replay_messages(prop, payload, path):
+    case = payload["case"]
+    ci, cm = both([case], harness="msgs" + prop[1:])
+    print("model:", show_obs(cm[0])); print("impl :", show_obs(ci[0]))
+    if disagree(ci[0], cm[0]):
+        C.violation(prop, path); return 1
+    print("agree"); return 0
 
 
 def run(tier, seed):
